@@ -30,6 +30,20 @@ func preludeFor(pkgName string) ([]byte, error) {
 	return []byte(strings.Replace(string(data), "package PKGNAME", "package "+pkgName, 1)), nil
 }
 
+// httpPreludeFor returns the net/http models for packages that deal with HTTP (nil otherwise).
+func httpPreludeFor(pkgDir, pkgName string) []byte {
+	switch pkgDir {
+	case "cmd/rdpgw/web", "cmd/rdpgw/protocol", "cmd/rdpgw/kdcproxy":
+	default:
+		return nil
+	}
+	data, err := os.ReadFile(filepath.Join(verifRoot, "harness", "prelude_http.go.tmpl"))
+	if err != nil {
+		return nil
+	}
+	return []byte(strings.Replace(string(data), "package PKGNAME", "package "+pkgName, 1))
+}
+
 // loadProgram type-checks the needed packages of /repo's current working tree with the
 // harness files and the prelude overlaid, and builds SSA (bodies lazily per package).
 func loadProgram(pkgDirs []string, all []*Harness, work string) (*Loaded, error) {
@@ -70,6 +84,9 @@ func loadProgram(pkgDirs []string, all []*Harness, work string) (*Loaded, error)
 			return nil, err
 		}
 		ld.Overlay[filepath.Join(*flagRepo, d, "zz_vpprelude.go")] = pre
+		if hp := httpPreludeFor(d, pkgName); hp != nil {
+			ld.Overlay[filepath.Join(*flagRepo, d, "zz_vpprelude_http.go")] = hp
+		}
 	}
 	cfg := &packages.Config{
 		Mode: packages.NeedName | packages.NeedFiles | packages.NeedCompiledGoFiles | packages.NeedImports | packages.NeedDeps |
